@@ -46,6 +46,9 @@ CLAIMED = {
  "C16": ("merkle", "TLC check of RHPMerkle.tla (definition = transcription, completeness, corruption catalogue) on bounded trees; every TLC case replayed on the real builders/verifiers with symbolic terms evaluated by the real hash primitives, on both CPU paths",
          "Range, diff/free, append and sector-roots proofs: builder output equals the spec's term list, verifiers accept honest proofs with the right roots and reject every catalogued corruption given the true count; sector-level roots/proofs and streaming verifiers compared against the plain definition; AVX2 and generic paths agree. Found and fixed the free-sectors altered-index defect.",
          "Trusted: collision-free hashing, the harness's term evaluator (cross-checked against expanded TLC terms each run), CPU path toggled from outside (GODEBUG).", "DESIGN.md 4.6, 5/C16"),
+ "C18": ("acc", "Multiproof.tla (definition + transcription of compute/expand/size and the numLeaves inference) and Outline.tla model-checked; every TLC case replayed on real accumulators and real V2TransactionsMultiproof encode/decode; real ledger blocks round-tripped; outlines of real and synthetic blocks completed against TLC-enumerated pool classes",
+         "The multiproof of every bounded leaf multiset equals the spec's list, decoding restores every proof bit for bit (duplicates, chain-index leaves, ephemeral parents), block ID / commitment / validity are unchanged by the round trip; an outline with any omitted subset has the block's ID, completes to exactly the block or reports exactly the missing hashes, and its codec is the identity.",
+         "Trusted: collision-free hashing, hterm term evaluator, the verif export shims (forwards only), TLC.", "DESIGN.md 4.2, 4.9, 5/C18"),
  "C19": ("net", "TLC model checking of Session/Handshake/KeyExchange/Framing specs; every TLC fault schedule replayed by an in-memory man-in-the-middle between real RHP2/RHP3/gateway endpoints; framing lines of real maximal/over-limit messages validated by TLC (FramingTrace.tla)",
          "Delivered sequence is an unaltered prefix, faults are detected and close the session, handshakes succeed iff genesis matches and unique IDs differ, maximal valid messages of 93 object types are admitted and over-limit ones refused within the limit, error responses surface as that error.",
          "Trusted: mux authentication (external), deadlines classify blocked reads, limits observed through behaviour (no export hook).", "DESIGN.md 4.9, 5/C19"),
